@@ -79,6 +79,12 @@ def generate(rng, run, tier):
     hint = J.gen(rng, rng.choice([0, 1, 1, 2, 2, 3]), deep)
     # the second hint of a comparison: unrelated, or (half of the time) the same shape with one atom replaced
     other = J.sibling(rng, hint) if rng.random() < 0.5 else J.gen(rng, rng.choice([0, 0, 1, 2]))
+    if rng.random() < 0.05:
+        # comparison focus: a user generic against a hint that is related to its container base (both directions)
+        a = rng.choice(sorted(J.RELATIVES))
+        b = rng.choice(J.RELATIVES[a])
+        return {'mode': 'gram', 'hint': {'a': a}, 'other': {'a': b}, 'api': rng.choice(['is_subhint_left', 'is_subhint_right', 'typehint_cmp']),
+                'obj': 'int1', 'draw': 0, 'gconf': None}
     if rng.random() < 0.08:
         # comparison focus: two hints of one family that has its own subhint code, over odd arguments
         fam = rng.choice(['Literal', 'Literal', 'Callable1', 'CallableE', 'tuple2', 'tuple_var', 'Annotated_is', 'GenericK', 'Union', 'type'])
